@@ -4,7 +4,7 @@
    when they execute. *)
 From Coq Require Import List NArith ZArith Bool Lia.
 From Gatery Require Import Bits BvsDefs BvsSpec BvsLeaf BvsWords BvsCopy BvsAbs BvsOps BvsEq
-     BvsQuery BvsCmp BvsMerge BvsBig.
+     BvsQuery BvsCmp BvsMerge BvsBig BvsMore.
 Import ListNotations.
 Ltac Zify.zify_post_hook ::= Z.to_euclidean_division_equations.
 Local Open Scope N_scope.
@@ -93,6 +93,7 @@ Ltac okprops H :=
 Ltac okconv :=
   repeat match goal with
   | H : (_ || _) = true |- _ => apply orb_true_iff in H
+  | H : Nat.eqb _ _ = true |- _ => apply Nat.eqb_eq in H
   | H : Nat.ltb _ _ = true |- _ => apply Nat.ltb_lt in H
   | H : N.ltb _ _ = true |- _ => apply N.ltb_lt in H
   | H : N.leb _ _ = true |- _ => apply N.leb_le in H
@@ -247,6 +248,51 @@ Proof.
   (* OExtractBig *)
   - orconv. destruct (G r) as (W & C & P). split; [exact Hinv|]. repeat split; try assumption.
     rewrite <- ?A. rewrite extractBigInt_abs by (try assumption; try (unfold VALUE, DEFINED, HIGH_IMPEDANCE in *; lia); try (cbv zeta; split; assumption)). reflexivity.
+  (* OAssign *)
+  - apply G.
+  - rewrite S. reflexivity.
+  - f_equal. apply A.
+  (* OSwap *)
+  - destruct (mut_case np nr rs ra (getr np rs rb) Hinv Hl (G rb)) as (I1 & L1 & B1 & A1).
+    destruct (mut_case np nr _ rb (getr np rs ra) I1 L1 (G ra)) as (I2 & L2 & B2 & A2).
+    split; [exact I2 | split; [exact L2 | split; [|split; [|reflexivity]]]].
+    + rewrite B2, B1, !S. reflexivity.
+    + rewrite A2, A1, !A. reflexivity.
+  (* OMove *)
+  - destruct (mut_case np nr rs rd (getr np rs rs0) Hinv Hl (G rs0)) as (I1 & L1 & B1 & A1).
+    destruct (mut_case np nr _ rs0 (mk_empty np) I1 L1 (good_empty np)) as (I2 & L2 & B2 & A2).
+    split; [exact I2 | split; [exact L2 | split; [|split; [|reflexivity]]]].
+    + rewrite B2, B1, !S. reflexivity.
+    + rewrite A2, A1, !A, abs_empty. reflexivity.
+  (* OClearResize *)
+  - destruct (G r) as (W & C & P).
+    destruct (clearResize_all (getr np rs r) n) as (M1 & M2 & M3 & M4 & M5).
+    repeat split; try assumption. lia.
+  - reflexivity.
+  - f_equal. rewrite <- A. destruct (clearResize_all (getr np rs r) n) as (_ & _ & _ & _ & M5). exact M5.
+  (* OHead *)
+  - destruct (G r) as (W & C & P). split; [exact Hinv|]. repeat split; try assumption.
+    rewrite <- ?A. rewrite head_abs by (try assumption; lia). reflexivity.
+  (* OAllDefNS *)
+  - destruct (G r) as (W & C & P). split; [exact Hinv|]. repeat split; try assumption.
+    rewrite <- ?A. rewrite allDefinedNS_abs by (try assumption; lia). reflexivity.
+  (* OAsBytes *)
+  - destruct (G r) as (W & C & P). split; [exact Hinv|]. repeat split; try assumption.
+    rewrite <- ?A. rewrite asBytes_abs by (try assumption; lia). reflexivity.
+  (* OEqBytes *)
+  - destruct (G r) as (W & C & P). split; [exact Hinv|]. repeat split; try assumption.
+    rewrite <- ?A. rewrite eqBytes_abs; [reflexivity | assumption | unfold DEFINED; lia | assumption |].
+    apply Forall_forall. intros b Hb.
+    match goal with H : forallb _ bytes = true |- _ => rewrite forallb_forall in H; apply H in Hb end.
+    apply N.ltb_lt. exact Hb.
+  (* OIterRead *)
+  - destruct (G r) as (W & C & P). split; [exact Hinv|]. repeat split; try assumption.
+    rewrite <- ?A. rewrite iterRead_abs by (try assumption; lia). reflexivity.
+  (* OIterWrite *)
+  - destruct (G r) as (W & C & P).
+    repeat split; [apply wf_iterWrite | apply clean_iterWrite | unfold iterWrite; rewrite np_on_plane]; assumption.
+  - apply (same_size np). reflexivity.
+  - f_equal. rewrite <- A. destruct (G r) as (W & C & P). apply abs_iterWrite; assumption.
 Qed.
 
 Lemma run_gen ops : forall rs (acc : list (option Z)),
